@@ -83,7 +83,7 @@ func (w *World) Explore(fn *ssa.Function, opt Options) *Result {
 		opt.Workers = 1
 	}
 	if opt.MaxSteps == 0 {
-		opt.MaxSteps = 20_000_000
+		opt.MaxSteps = 150_000_000
 	}
 	if opt.MaxDecisions == 0 {
 		opt.MaxDecisions = 4000
